@@ -1100,6 +1100,26 @@ PROP = Prop(
                   "CPython's ast.parse is the reference for Python's grouping (harness/props/c07.py: py_tree)",
                   "the lexer is modelled (PV/Model/Lexer.lean, regenerated rule table); Python's own "
                   "tokenizer is the reference for the token strings of the shared syntax"],
+    level_text="Lean theorems: the parser model consumes the whole token list or raises "
+               "(consumes_all_or_error, rest_is_suffix, parse_string_consumes_all); two_operator_grouping "
+               "/ prefix_operator_grouping (generic in the table: a o1 b o2 c groups right iff the guard "
+               "of o2 exceeds the right level of o1); on the table regenerated from parser.py the "
+               "parser differs from Python's grouping on exactly 21 of 256 operator pairs and 16 prefix "
+               "cases (grouping_deviations_current, prefix_deviations_current, decide) = the known "
+               "findings, and agrees elsewhere (grouping_agrees_current); every branch of the parser "
+               "and the lexer rule table are re-read from the source on every run and the hand-written "
+               "parser is proved equal to the table interpreter for all token lists, levels and fuel "
+               "(parse_eq_table_current, parser_table_current, lexer_partitions_input, "
+               "operator_token_current, lexer_order_current).",
+    level_note="Python's grammar itself is not formalised in Lean: CPython's ast.parse / tokenize are "
+               "the readings of record at run time (oracles), for skeleton strings of all 2- and "
+               "3-operator shapes, random strings, a tuple/trailing-comma family (exact nesting of "
+               "values) and the Python-AST importer. Trusted: Lean kernel; regular-expression "
+               "semantics; the reader extract/parser.py and the LexIterator primitives of the table "
+               "language (tied by the table-parse stream).",
+    technique="Lean 4 proofs about a Pratt parser model driven by the regenerated parser/lexer tables "
+              "(decide over the full operator-pair matrix) + differential correspondence against "
+              "Parser.__call__ with CPython's parser as the reading of record",
     design_ref="DESIGN.md §4 C07",
 )
 
